@@ -173,7 +173,7 @@ func runReaderHistories() {
 		fams = append(fams, fam{o[i].Sym, o[i], other, q[0]})
 	}
 	depth := chk.Pick(3, 3)
-	chk.Range(fmt.Sprintf("reader-object histories: %d readers x ALL sequences of <=%d reads from an 8-image menu (two symbols upright / rotated 90 / rotated 180, a blank page, another symbology) x TRY_HARDER on ONE reader object: the last outcome == a fresh reader's outcome", len(fams), depth), len(fams)*2,
+	chk.Range(fmt.Sprintf("reader-object histories: %d readers x ALL sequences of <=%d reads from an 8-image menu (two symbols upright / rotated 90 / rotated 180, a blank page, another symbology) x TRY_HARDER on ONE reader object (Reset() before the third read): the last outcome == a fresh reader's outcome", len(fams), depth), len(fams)*2,
 		func(i int) string { return fmt.Sprint(fams[i/2].name, " tryHarder=", i%2 == 1) },
 		func(l *mc.Local, i int) {
 			f := fams[i/2]
@@ -228,7 +228,10 @@ func runReaderHistories() {
 			rec = func(seq []int) {
 				rd := f.a.reader()
 				var last outcome
-				for _, k := range seq {
+				for step, k := range seq {
+					if step == 2 {
+						mc.Guard(func() { rd.Reset() }) // the documented call between uses: before the third read of a sequence
+					}
 					last = readWith(rd, menu[k])
 				}
 				final := seq[len(seq)-1]
